@@ -57,6 +57,8 @@ def run(ctx, rep):
     r53(ctx, rep)
     r54(ctx, rep)
     r55(ctx, rep)
+    rep.rule("R5.6", "history_size / store_history / budgets reach their consumers through the right parameters (no swapped arguments)")
+    common.check_swapped_args(ctx, rep, "R5.6", lambda g: (g.cls is not None and g.cls.name in ("Problem", "Models")) or g.name in ("_build_result", "_eval", "_set_default_options"))
 
 
 # ---------------------------------------------------------------------------
@@ -352,33 +354,27 @@ def _callers_first(ctx, f, seen, re):
 
 
 def _filter_grows_on_empty(ctx):
-    """In the evaluation routine every definition of the inclusion flag is
-    true on an empty filter (len(F) == 0, or all(... zip(filter lists)))."""
-    E = ctx.func(T.EVAL)
-    flag = None
-    for node in ast.walk(E.node):
-        if isinstance(node, ast.If) and isinstance(node.test, ast.Name):
-            for sub in ast.walk(node):
-                if isinstance(sub, ast.Call) and isinstance(sub.func, ast.Attribute) and sub.func.attr == "append" and mentions(sub.func.value, "_fun_filter"):
-                    flag = node.test.id
-    if flag is None:
-        return False
-    for node in ast.walk(E.node):
-        if isinstance(node, ast.Assign) and any(isinstance(t, ast.Name) and t.id == flag for t in node.targets):
-            v = node.value
-            ok = False
-            p = _cmp_parts(v)
-            if p and isinstance(p[0], ast.Call) and getattr(p[0].func, "id", None) == "len" and const_value(p[2]) == 0:
-                ok = True
-            if isinstance(v, ast.Call) and getattr(v.func, "id", None) == "all" and v.args and isinstance(v.args[0], (ast.GeneratorExp, ast.ListComp)):
-                gen = v.args[0].generators[0]
-                if mentions(gen.iter, "_fun_filter", "_maxcv_filter", "_x_filter"):
-                    ok = True
-            if isinstance(v, ast.Constant) and v.value is True:
-                ok = True
-            if not ok:
-                return False
-    return True
+    """Every evaluation leaves the filter non-empty: the update fragment of the
+    evaluation routine is interpreted (checker-side evaluator) on an empty
+    filter for the four NaN classes of the new point and for filter_size = 1."""
+    cached = getattr(ctx, "_filter_grows", None)
+    if cached is not None:
+        return cached
+    from .c03 import filter_fragment, fragment_names, simulate, NAN
+    from .. import minieval
+    E, frag = filter_fragment(ctx)
+    names = fragment_names(ctx, E, frag)
+    ok = True
+    for p in [(NAN, NAN), (NAN, 1.0), (1.0, NAN), (1.0, 1.0)]:
+        for size in (1, 10 ** 9):
+            try:
+                F, C, X = simulate(frag, E, p, [], size, names)
+            except minieval.Unsupported as exc:
+                raise AnalysisError(f"filter update fragment uses a construct outside the evaluator's subset: {exc}")
+            if len(X) < 1:
+                ok = False
+    ctx._filter_grows = ok
+    return ok
 
 
 # ---------------------------------------------------------------------------
@@ -474,6 +470,17 @@ def r52(ctx, rep):
                 rep.finding("R5.2", br, norm(n), n.lineno, "result.nfev is not the evaluation counter")
     if not found:
         raise AnalysisError("no store to result.nfev")
+    # the counter is read after the selection: best_eval evaluates the problem
+    # once when nothing has been evaluated yet (early exits of minimize)
+    cfgb = ctx.cfg(br)
+    sel = [cfgb.node_containing(ev.node) for ev in ctx.events(br) if ev.kind == "call" and any(t.kind == "repo" and t.name == T.BEST_EVAL for t in ev.targets)]
+    for n in cfgb.nodes:
+        if n.kind == "stmt" and isinstance(n.ast, ast.Assign) and any(isinstance(t, ast.Attribute) and t.attr == "nfev" for t in n.ast.targets):
+            if sel and all(cfgb.dominates(s_, n.id) for s_ in sel):
+                rep.ok("R5.2", "result.nfev is read after the selection (which may still evaluate the problem once)")
+            else:
+                rep.bad("R5.2", "result.nfev order")
+                rep.finding("R5.2", br, norm(n.ast), n.line, "result.nfev is read before best_eval is called; on the early exits of minimize (nothing evaluated yet) best_eval evaluates the problem once, so nfev is reported as 0 although one evaluation was made")
 
 
 # ---------------------------------------------------------------------------
